@@ -568,25 +568,72 @@ Qed.
 
 End Closed.
 
-(** ** The first message always fits
+(** ** How one step changes the list of processes *)
 
-    A blocking send on a channel that is open, empty and has capacity at least
-    one does not block (the handshake sends ABORT / WELCOME: nothing else has
-    been queued for that peer). *)
-Theorem first_message_fits (s : state) i l c v k :
-  outcome s = None ->
-  nth_error (procs s) i = Some l ->
-  code l = ASend c v k ->
-  c_closed (chans s c) = false ->
-  c_buf (chans s c) = [] ->
-  1 <= c_cap (chans s c) ->
-  exists s', step s (EInt i 0) = Some s' /\ outcome s' = None.
+(** [cont a k]: [k] is a possible continuation of action [a]. *)
+Inductive cont : act L chan var lock wgid val -> L -> Prop :=
+| ct_send c v k : cont (ASend c v k) k
+| ct_recv c k v : cont (ARecv c k) (k v)
+| ct_try1 c v k1 k2 : cont (ATrySend c v k1 k2) k1
+| ct_try2 c v k1 k2 : cont (ATrySend c v k1 k2) k2
+| ct_tryall cs v k : cont (ATrySendAll cs v k) k
+| ct_close c k : cont (AClose c k) k
+| ct_closeonce cs k : cont (ACloseOnce cs k) k
+| ct_sel_recv rs d c k v : In (SRecv c k) rs -> cont (ASelect rs d) (k v)
+| ct_sel_send rs d c v k : In (SSend c v k) rs -> cont (ASelect rs d) k
+| ct_sel_default rs k : cont (ASelect rs (Some k)) k
+| ct_lock m k : cont (ALock m k) k
+| ct_unlock m k : cont (AUnlock m k) k
+| ct_wgadd w k : cont (AWgAdd w k) k
+| ct_wgdone w k : cont (AWgDone w k) k
+| ct_wgwait w k : cont (AWgWait w k) k
+| ct_spawn ch k : cont (ASpawn ch k) k
+| ct_read x k v : cont (ARead x k) (k v)
+| ct_write x v k : cont (AWrite x v k) k
+| ct_tau k : cont (ATau k) k.
+
+(** The processes after a non-panicking step. *)
+Theorem step_procs (s : state) e s' :
+  step_spec s e s' -> outcome s' = None ->
+  (exists i l k, nth_error (procs s) i = Some l /\ cont (code l) k /\
+      (procs s' = set_nth (procs s) i k \/
+       exists ch, code l = ASpawn ch k /\ procs s' = set_nth (procs s) i k ++ [ch]))
+  \/
+  (exists i j li lj ki kj, i <> j /\
+      nth_error (procs s) i = Some li /\ nth_error (procs s) j = Some lj /\
+      cont (code li) ki /\ cont (code lj) kj /\
+      procs s' = set_nth (set_nth (procs s) i ki) j kj).
 Proof.
-  intros Ho Hn Hc Hcl Hb Hcap. unfold Machine.step. rewrite Ho, Hn.
-  unfold step_int. rewrite Hc. unfold send_step. rewrite Hcl.
-  unfold has_room. rewrite Hb. simpl.
-  destruct (c_cap (chans s c)) eqn:E; [lia|]. simpl.
-  eexists. split; [reflexivity|]. simpl. exact Ho.
+  intros Hs Ho. inversion Hs; subst; clear Hs.
+  - left. exists i, l.
+    match goal with H : int_spec _ _ _ _ _ |- _ => inversion H; subst; clear H end;
+    repeat match goal with
+    | H : send_spec _ _ _ _ _ _ |- _ => inversion H; subst; clear H
+    | H : recv_spec _ _ _ _ _ |- _ => inversion H; subst; clear H
+    end;
+    try (simpl in Ho; discriminate);
+    match goal with Hc : code l = _ |- _ => rewrite Hc end;
+    (eexists; split; [eassumption|]; split;
+       [first [econstructor; eauto using nth_error_In; fail | eapply ct_sel_recv; eauto using nth_error_In | eapply ct_sel_send; eauto using nth_error_In]|]);
+    first [ left; simpl; rewrite ?close_all_procs; try reflexivity;
+            match goal with Ht : try_all _ _ _ _ = Some _ |- _ => rewrite (try_all_procs _ _ _ _ Ht); reflexivity end
+          | right; eexists; split; reflexivity ].
+  - right.
+    match goal with H : sync_spec _ _ _ _ _ _ _ _ |- _ => inversion H; subst; clear H end.
+    lazymatch goal with
+    | Hso : send_offer _ _ _ = Some (?c, ?v, ?k), Hro : recv_offer _ _ _ _ _ = Some ?kr |- _ =>
+        exists i, j, li, lj, k, (kr (Some v)); repeat split; auto;
+        [ unfold send_offer in Hso; destruct (code li) eqn:E; try discriminate;
+          [ inversion Hso; subst; constructor
+          | destruct (nth_error rs ni) as [[|]|] eqn:En; try discriminate;
+            inversion Hso; subst; eapply ct_sel_send; eapply nth_error_In; eauto ]
+        | unfold recv_offer in Hro; destruct (code lj) eqn:E; try discriminate;
+          [ match type of Hro with (if ?b then _ else _) = _ => destruct b end; try discriminate;
+            inversion Hro; subst; constructor
+          | destruct (nth_error rs nj) as [[|]|] eqn:En; try discriminate;
+            match type of Hro with (if ?b then _ else _) = _ => destruct b end; try discriminate;
+            inversion Hro; subst; eapply ct_sel_recv; eapply nth_error_In; eauto ] ]
+    end.
 Qed.
 
 End Facts.
